@@ -837,3 +837,14 @@ add('C03.missing_stats_weight_config', 'C03', (MMUF, "            graph_info,\n 
     'C03.R6', 'a constant whose statistics are computed on the spot is quantized with the weight configuration, whatever the operator (seeded b12-C03)')
 add('C03.twin_quantized_dim_get', 'C03', (MMUF, "      quantized_dim = tfl_flatbuffer_utils.TFL_OP_TO_WEIGHT_QUANTIZED_DIM[\n          op_info.op_name\n      ]\n",
     "      quantized_dim = tfl_flatbuffer_utils.TFL_OP_TO_WEIGHT_QUANTIZED_DIM.get(\n          op_info.op_name, None\n      )\n"), (), 'a tolerant table lookup for the quantized dimension: nothing else changes', kind='twin')
+
+# interpreter state between calibration samples (C09.R11 stateful stand-in; seeded b13-C09)
+CALF = 'calibrator.py'
+add('C09.reset_once_per_call', 'C09', (CALF, "      # Reset interpreter after one round of calibration.\n      self._tfl_interpreter.reset_all_variables()\n",
+    "    # Reset interpreter after one round of calibration.\n    self._tfl_interpreter.reset_all_variables()\n"), 'C09.R11',
+    'the interpreter variables are reset once per calibrate() call instead of once per sample: a stateful model carries state from sample to sample (seeded b13-C09)')
+add('C09.twin_reset_before_sample', 'C09', [
+    (CALF, "      # Reset interpreter after one round of calibration.\n      self._tfl_interpreter.reset_all_variables()\n", ""),
+    (CALF, "    for data in calibration_dataset:\n      # Initialize tensor names that are updated in this round of calibration.\n      updated_tensor_names = set()\n",
+     "    for data in calibration_dataset:\n      self._tfl_interpreter.reset_all_variables()\n      # Initialize tensor names that are updated in this round of calibration.\n      updated_tensor_names = set()\n"),
+], (), 'the variables are reset before every sample instead of after it: every sample still starts from the initial state', kind='twin')
